@@ -18,10 +18,14 @@ type Scenario struct {
 	Q2   int  // COMMIT recipients: 0 all; 1 none; 2 leader only; 3+i node i only
 	V    int  // Byzantine replica: 0 votes; 1 withholds its votes
 	J    int  // Byzantine leader's PRECOMMIT justification: 0 the certificate it just aggregated; 1 a REPLAYED certificate: the first certificate of the first certified block (other round, possibly other results) under the current message header
+	U    int  // 1: the Byzantine node is NOT this round's elected leader but acts as one (mode L) with a REPLAYED election certificate: the +2/3 ELECTION_VOTE certificate of an earlier round of this root height in which it was elected; its PROPOSE follows the elected leader's
 	L    int  // Byzantine leader: 0 honest; 1,2 re-proposes known certificate 0/1 with that certificate as HighQc; 3 proposes a fresh block with no justification; 4 equivocates (X to one half of the honest nodes, X' to the other); 5,6 like 1,2 with the latest certificate; 7 equivocates on the certificate RESULTS only (same block, results R / R'); 8 proposes the first certified block again with OTHER results and no justification
 }
 
 func (s Scenario) String() string {
+	if s.U != 0 {
+		return fmt.Sprintf("{bump:%v E:%d P:%d Q1:%d Q2:%d V:%d L:%d U:%d}", s.Bump, s.E, s.P, s.Q1, s.Q2, s.V, s.L, s.U)
+	}
 	if s.J != 0 {
 		return fmt.Sprintf("{bump:%v E:%d P:%d Q1:%d Q2:%d V:%d L:%d J:%d}", s.Bump, s.E, s.P, s.Q1, s.Q2, s.V, s.L, s.J)
 	}
@@ -125,9 +129,16 @@ func (w *World) RunRound(sc Scenario) (ok bool) {
 		for _, e := range pend {
 			if rc.leader < 0 && e.Kind == KElectionVote {
 				rc.leader = e.To
-				rc.puppet = sc.L > 0 && rc.leader == w.Cfg.Byz
-				if sc.L > 0 && rc.leader != w.Cfg.Byz {
-					rc.disabled = true
+				if sc.U == 0 {
+					rc.puppet = sc.L > 0 && rc.leader == w.Cfg.Byz
+					if sc.L > 0 && rc.leader != w.Cfg.Byz {
+						rc.disabled = true
+					}
+				} else {
+					rc.puppet = sc.L > 0 && w.Cfg.Byz >= 0 && rc.leader != w.Cfg.Byz && w.oldElection(rc.rh, rc.round) != nil
+					if !rc.puppet {
+						rc.disabled = true
+					}
 				}
 			}
 			if w.allow(rc, e) {
@@ -191,6 +202,9 @@ func (w *World) allow(rc *roundCtx, e *Envelope) bool {
 		if e.Crafted && !w.trackAllows(rc, e) {
 			return false
 		}
+		if sc.U == 1 && !e.Crafted {
+			return true // usurpation rounds: Q1/Q2 select the recipients of the USURPER's messages; the elected leader's are delivered
+		}
 		switch sc.Q1 {
 		case 1:
 			return e.To == rc.leader
@@ -202,6 +216,9 @@ func (w *World) allow(rc *roundCtx, e *Envelope) bool {
 	case KCommit:
 		if e.Crafted && !w.trackAllows(rc, e) {
 			return false
+		}
+		if sc.U == 1 && !e.Crafted {
+			return true
 		}
 		switch {
 		case sc.Q2 == 1:
@@ -328,6 +345,13 @@ func (w *World) puppet(rc *roundCtx, phaseFired lib.Phase) {
 			if e.From == byz && e.Kind == KPropose && !e.Crafted {
 				rc.tmpl = e.Msg
 				break
+			}
+		}
+		if rc.sc.U == 1 {
+			// not elected in this round: replay the election certificate of an earlier round
+			rc.tmpl = nil
+			if q := w.oldElection(rc.rh, rc.round); q != nil {
+				rc.tmpl = &bft.Message{Qc: q}
 			}
 		}
 		if rc.tmpl == nil {
@@ -473,6 +497,26 @@ func (w *World) puppet(rc *roundCtx, phaseFired lib.Phase) {
 			sendAll(m)
 		}
 	}
+}
+
+// oldElection returns a +2/3 ELECTION_VOTE certificate that names the Byzantine node, of root height rh
+// and of a round other than the current one (nil if the adversary never saw one).
+func (w *World) oldElection(rh, round uint64) *lib.QuorumCertificate {
+	if w.Cfg.Byz < 0 {
+		return nil
+	}
+	pub := w.Nodes[w.Cfg.Byz].Key.PublicKey().Bytes()
+	vs := w.ValSet()
+	for _, q := range w.AllQCs {
+		if q.Header.Phase != lib.Phase_ELECTION_VOTE || q.Header.RootHeight != rh || q.Header.Round == round || !bytes.Equal(q.ProposerKey, pub) {
+			continue
+		}
+		if partial, err := q.Signature.Check(q, vs); err != nil || partial {
+			continue
+		}
+		return q
+	}
+	return nil
 }
 
 // otherResults returns well-formed certificate results that differ from r (another reward recipient).
